@@ -54,9 +54,9 @@ Definition check (c : c08case) : N :=
                 if negb (exec_only d0) then 0
                 else if negb (gt_eqb false (g_doc d0) o) then 1
                 else if negb (bytes_eqb (print_doc d0) (unhex printed)) then 1
-                (* the hypothesis of C08_lex_layout holds for this document's layout, unless a string
-                   has multi-byte content (not covered by the theorem) *)
-                else if layout_wfb (lay_doc d0) || negb (forallb (forallb (fun c => c <? 128)) (strings_of o)) then 0 else 1
+                (* the hypothesis of C08_lex_layout holds for this document's layout (proved for every parsed
+                   executable document with valid UTF-8 strings; evaluated here as a cross-check) *)
+                else if layout_wfb (lay_doc d0) then 0 else 1
               | _ => 1
               end
           | _ => 1
